@@ -29,7 +29,8 @@
      wclass          Unicode classes of wordTokenRegex  [\pM\pL\pN_']+|\pS  (1 = word character, 2 = symbol)
      regex_submatch  regexp.Compile("(?mi)"+pattern) + FindStringSubmatch (None = does not compile)
      ext_call        every registered function outside the modelled set (may return Panic: nothing is assumed)
-     frac_pow        Decimal.Pow on a non-integral power (the value only: the guards of operators.Exponent are modelled)
+     frac_pow        the series part of Decimal.Pow on a non-integral power (Ln, ExpTaylor, final Mul); may return a
+                     panic class: nothing is assumed in the model, the theorems state their hypothesis
    Values of date/time kind are opaque (kind only); strings.Replace is re-implemented (str_replace);
    FormatCustom's digit grouping is not reproduced (format_number is compared on the kind of its result). *)
 From Coq Require Import ZArith NArith List Bool.
@@ -613,8 +614,10 @@ Definition dec_canonical (d : dec) : dec :=
 Definition max_number_exponent : Z := 100000%Z.
 Definition exponent_out_of_range (e : Z) : bool := ((e <? - max_number_exponent) || (max_number_exponent <? e))%Z.
 
-(* Decimal.Pow on a non-integral power (logarithm and exponential series of the library): not modelled *)
-Variable frac_pow : dec -> dec -> dec.
+(* Decimal.Pow on a non-integral power, after the whole part of the power has been computed: Ln, Mul by the
+   fractional part, ExpTaylor and the final Mul with the whole-part power (arguments: base, power, whole-part power).
+   Not modelled, and NOT assumed total: it may return a panic class. *)
+Variable frac_pow : dec -> dec -> dec -> pclass + dec.
 
 (* Decimal.NumDigits (exact digit count; the library's float fast path can be off by one next to powers of ten),
    Decimal.IsInteger, operators.numberMagnitude *)
@@ -631,23 +634,26 @@ Definition pow_precision_negative_exponent : Z := 16%Z.
 Definition dec_pow_nat (a : dec) (n : Z) : option dec :=
   if in_int32 (dexp a * n) then Some (Dec (mant a ^ n) (dexp a * n)) else None.
 
-(* Decimal.Pow *)
+(* Decimal.Pow: the whole part of the power by PowBigInt (and DivRound(1, _, 16) when it is negative), for
+   integral and non-integral powers alike; then, for a non-integral power, the series *)
 Definition dec_pow (a b : dec) : res :=
   if (mant a =? 0)%Z then Ret (VNum (Dec 0 0))                  (* 0 ^ anything: 0, or the zero value *)
   else if (mant b =? 0)%Z then Ret (VNum (Dec 1 0))
-  else if negb (dec_is_integer b) then
-    (if (mant a <? 0)%Z then Ret (VNum (Dec 0 0)) else Ret (VNum (frac_pow a b)))
   else
-    let n := dec_trunc b in
-    match dec_pow_nat a (Z.abs n) with
-    | None => Panic PExponent
-    | Some p =>
-        if (0 <=? n)%Z then Ret (VNum p)
-        else match dec_div_round (Dec 1 0) p pow_precision_negative_exponent with
-             | inr q => Ret (VNum q)
-             | inl c => Panic c
-             end
-    end.
+    let n := dec_trunc b in                                       (* d2.QuoRem(one, 0): whole part, toward zero *)
+    let integral := dec_is_integer b in
+    if negb integral && (mant a <? 0)%Z then Ret (VNum (Dec 0 0))
+    else
+      match dec_pow_nat a (Z.abs n) with
+      | None => Panic PExponent
+      | Some p =>
+          match (if (0 <=? n)%Z then inr p else dec_div_round (Dec 1 0) p pow_precision_negative_exponent) with
+          | inl c => Panic c
+          | inr whole =>
+              if integral then Ret (VNum whole)
+              else match frac_pow a b whole with inr r => Ret (VNum r) | inl c => Panic c end
+          end
+      end.
 
 (* operators.Exponent: guards and power on the canonical base and power *)
 Definition pow_body (x y : dec) : res :=
